@@ -1,4 +1,5 @@
 import Op2Proofs.Bmp.Ops
+import Op2Proofs.Bmp.RoundTrip
 import Op2Model.Gen.Layout
 /-!
 # C08 — indexed bitmaps read back valid and round-trip pixels, palette, geometry
@@ -134,5 +135,72 @@ theorem C08_invert (b : Bytes) (f : Bmp) (h : Bmp.read b = .ok f) :
   simp only [Int.neg_neg, Int.natAbs_neg]
   show Out.ok { f with ih := { f.ih with height := f.ih.height }, pixels := (storedRows (storedRows f.pixels p n).reverse.flatten p n).reverse.flatten } = _
   rw [hcut, List.reverse_reverse, storedRows_flatten p n f.pixels (by rw [L.npix, Nat.mul_comm])]
+
+/-! ## write, then read (`WriteIndexed` followed by `ReadIndexed`) -/
+
+/-- whatever the reader accepted can be written, and the written bytes read back with the same geometry and depth, the
+    palette extended entry for entry to `2^bits` colours, and every stored row equal to its meaningful bytes followed by
+    zero padding -/
+theorem C08_rt (b : Bytes) (f : Bmp) (h : Bmp.read b = .ok f) :
+    ∃ w f', write f = .ok w ∧ Bmp.read w = .ok f' ∧
+      f'.ih.width = f.ih.width ∧ f'.ih.height = f.ih.height ∧ f'.ih.bitCount = f.ih.bitCount ∧
+      f.palette <+: f'.palette ∧ f'.palette.length = 2 ^ f.ih.bitCount ∧
+      f'.pixels.length = f.pixels.length ∧
+      storedRows f'.pixels (pitch f.ih.bitCount f.ih.width) f.ih.height.natAbs =
+        (storedRows f.pixels (pitch f.ih.bitCount f.ih.width) f.ih.height.natAbs).map
+          (fun r => r.take (pixByteWidth f.ih.bitCount f.ih.width) ++
+                    zeros (pitch f.ih.bitCount f.ih.width - pixByteWidth f.ih.bitCount f.ih.width)) := by
+  have L := read_loaded h
+  refine ⟨Loaded.written f, normalize f, L.write_ok, read_written L, rfl, rfl, rfl, ?_, L.fullPalette_length,
+          normalize_pixels_length L, ?_⟩
+  · exact List.prefix_append _ _
+  · exact storedRows_padded _ _ _ _ (pixByteWidth_le_pitch _ _) (by rw [L.npix, Nat.mul_comm]; exact Nat.le_refl _)
+
+/-- a 1-bit 1×1 file: 14 + 40 header bytes, two palette entries, one padded row -/
+def sample : Bytes :=
+  [0x42, 0x4D, 0x42, 0, 0, 0, 0, 0, 0, 0, 0x3E, 0, 0, 0,
+   0x28, 0, 0, 0, 1, 0, 0, 0, 1, 0, 0, 0, 1, 0, 1, 0, 0, 0, 0, 0, 0, 0, 0, 0, 0, 0, 0, 0, 0, 0, 0, 0, 0, 0, 0, 0, 0, 0, 0, 0,
+   0, 0, 0, 0, 0xFF, 0xFF, 0xFF, 0,
+   0x80, 0, 0, 0]
+
+/-- non-vacuity: the reader accepts `sample` -/
+example : (Bmp.read sample).isOk = true := by decide
+
+/-- padding bytes of every stored row are zero -/
+def CleanPadding (f : Bmp) : Prop :=
+  ∀ r ∈ storedRows f.pixels (pitch f.ih.bitCount f.ih.width) f.ih.height.natAbs,
+    r.drop (pixByteWidth f.ih.bitCount f.ih.width) = zeros (pitch f.ih.bitCount f.ih.width - pixByteWidth f.ih.bitCount f.ih.width)
+
+/-- `CreateIndexed(bitCount, width, height)`: what it returns is written and read back unchanged -/
+theorem C08_factory_rt1 (bits w : Nat) (h : Int) (f : Bmp) (hh : -2147483648 ≤ h ∧ h < 2147483648)
+    (hc : create1 bits w h = .ok f) : ∃ wr, write f = .ok wr ∧ Bmp.read wr = .ok f := by
+  obtain ⟨s, hs, e⟩ := create1_inv hc
+  subst e
+  exact shape_rt_zeros hs hh _ (by rw [List.length_replicate]; exact (createShape_ok hs).2.2.2.2.2.2.2.2.2)
+
+/-- `CreateIndexed(bitCount, width, height, palette)` -/
+theorem C08_factory_rt2 (bits w : Nat) (h : Int) (pal : List Color) (f : Bmp) (hh : -2147483648 ≤ h ∧ h < 2147483648)
+    (hc : create2 bits w h pal = .ok f) : ∃ wr, write f = .ok wr ∧ Bmp.read wr = .ok f := by
+  obtain ⟨s, hs, hp, e⟩ := create2_inv hc
+  subst e
+  exact shape_rt_zeros hs hh _ (create2_palette_length (createShape_ok hs).2.2.2.2.2.2.2.2.2 hp)
+
+/-- `CreateIndexed(bitCount, width, height, palette, pixels)`: unchanged when the supplied rows have zero padding -/
+theorem C08_factory_rt3 (bits w : Nat) (h : Int) (pal : List Color) (px : Bytes) (f : Bmp)
+    (hh : -2147483648 ≤ h ∧ h < 2147483648) (hc : create3 bits w h pal px = .ok f) (hp : CleanPadding f) :
+    ∃ wr, write f = .ok wr ∧ Bmp.read wr = .ok f := by
+  obtain ⟨s, hs, hl, e, hv⟩ := create3_inv hc
+  subst e
+  exact shape_rt hs hh _ px (create2_palette_length (createShape_ok hs).2.2.2.2.2.2.2.2.2 hl) (verify_npix hs hv) hp
+
+/-- non-vacuity of the factory round trips: each factory returns an object for small arguments -/
+example : (create1 8 3 (-2)).isOk = true := by decide
+example : (create2 4 5 2 [⟨1, 2, 3, 0⟩]).isOk = true := by decide
+example : (create3 1 1 1 [] [0x80, 0, 0, 0]).isOk = true := by decide
+
+/-- the hypothesis `CleanPadding` of `C08_factory_rt3` cannot be dropped: a supplied row with a non-zero padding byte is
+    accepted by the factory and comes back changed (the writer zeroes the padding) -/
+example : ∃ f wr f', create3 1 1 1 [] [0x80, 1, 0, 0] = .ok f ∧ write f = .ok wr ∧ Bmp.read wr = .ok f' ∧ f' ≠ f :=
+  ⟨_, _, _, rfl, rfl, rfl, by decide⟩
 
 end Op2.Props.C08
